@@ -7,8 +7,16 @@
 //!   `chars().next()`/`next_back()`): loop-free or bounded by the 4 UTF-8 bytes, every `char` /
 //!   every `u32` — `kind=complete`.
 //! * iteration: the decoder `string_to_char` is `pub(super)` in konst::string, so it is reached
-//!   through `Chars`/`CharIndices` (and their `rev()`).  Strings are all valid UTF-8 strings up
-//!   to a byte bound, step histories all front/back sequences up to a step bound — `kind=bounded`.
+//!   through `Chars`/`CharIndices` (and their `rev()`).  Lock-step with the real std iterators from
+//!   the fresh iterator over every valid UTF-8 string up to a byte bound, every front/back history
+//!   up to a step bound (quick: 5 bytes / 4 steps, thorough: 8 bytes / 6 steps) — `kind=bounded`.
+//!   After every step the yielded item (char, or (offset, char)) and the remaining string
+//!   (`as_str()`, pointer + length) are compared.  `string::split_at` can reach konst_kernel's
+//!   panic formatter (256-byte loops), so `non_char_boundary_panic` is stubbed by a plain `panic!`
+//!   (still a failed check if reached).
+//! * `__find_next_char_boundary` / `__find_prev_char_boundary`: least boundary after / greatest
+//!   boundary before `pos` in std's sense (`str::is_char_boundary`), for the positions the
+//!   property's callers can pass on a non-empty string (next: pos < len, prev: 1 <= pos <= len).
 use crate::hlib::*;
 use konst::{chr, string};
 use konst_kernel::string::{__find_next_char_boundary, __find_prev_char_boundary};
